@@ -30,11 +30,12 @@ func init() {
 		docs := eng.AlgebraDocs()
 		for _, b := range backends {
 			eng.CritSweep(run, b, docs, trees, laws)
+			eng.CritSweep(run, b, docs, trees, laws, "y", "zz")
 			eng.KindSweep(run, b, docs)
 		}
 		run.Set("criteria_trees", len(trees))
 		run.Set("documents", len(docs))
 		run.Set("distinct_nontrivial", run.DistinctCount("selections")+run.DistinctCount("kind_cases"))
-		return "every criteria tree (52 leaves: six comparison operators x operands nil/number/string/Field(y)/\"$y\"/reference to an absent field, In/Contains with literal, field-reference and empty lists, Exists/NotExists/Like; all negations and And/Or pairs; depth 2 over 8 leaves) x 48 documents (x over 12 typed shapes incl. absent, y over 4), evaluated through FindAll and through Satisfy on the publicly normalised tree, against the documented semantics; De Morgan, double negation, complement, Neq=Not(Eq), NotExists=Not(Exists), In=disjunction checked directly on clover's answers for every pair of leaves; every numeric literal in all 12 Go numeric kinds; distinct = distinct selected-document sets"
+		return "every criteria tree (52 leaves: six comparison operators x operands nil/number/string/Field(y)/\"$y\"/reference to an absent field, In/Contains with literal, field-reference and empty lists, Exists/NotExists/Like; all negations and And/Or pairs; depth 2 over 8 leaves) x 48 documents (x over 12 typed shapes incl. absent, y over 4), on a collection without indexes and on one with indexes on y and on an unrelated field, evaluated through FindAll and through Satisfy on the publicly normalised tree, against the documented semantics; De Morgan, double negation, complement, Neq=Not(Eq), NotExists=Not(Exists), In=disjunction checked directly on clover's answers for every pair of leaves; every numeric literal in all 12 Go numeric kinds; distinct = distinct selected-document sets"
 	})
 }
